@@ -139,6 +139,9 @@ def handle (req : Sexp) : Sexp :=
           some (if v.w > 0 && v.h > 0 then put (Spec.equivalentTransform pr w h v) else .atom "na")
         | _ => some (.atom "na")
       some (ok [put (resolveTransforms (parsePAR par.toList) w h (some v)), sp])
+    | .list [.atom "radii", ra, rb, x, y, sq] => do
+      let r := scaleRadii (← ra.asRat?) (← rb.asRat?) (← x.asRat?) (← y.asRat?) (← sq.asRat?)
+      some (ok [ofRat r.1, ofRat r.2])
     | .list [.atom "guard", .list (.atom "defs" :: ds), root] => do
       let defs ← ds.mapM fun
         | .list [id, n] => do some ((← id.asNat?), (← getNode 64 n))
